@@ -331,7 +331,6 @@ def fn_to_sympy(
 
 
 def _handle_fn_body(body: list[ast.stmt], ctx: Context) -> sympy.Expr | None:
-    pieces = []
     remaining_body = list(body)
 
     while remaining_body:
@@ -339,60 +338,49 @@ def _handle_fn_body(body: list[ast.stmt], ctx: Context) -> sympy.Expr | None:
 
         if isinstance(node, ast.If):
             condition = _handle_expr(node.test, ctx)
-            if_expr = _handle_fn_body(node.body, ctx)
-            pieces.append((if_expr, condition))
+            # Either branch continues with the statements that follow the if, and
+            # each works on its own copy of the symbols: an assignment made in one
+            # branch is invisible to the other and to the path that skips it.
+            # An elif is just an if inside orelse.
+            if_expr = _handle_fn_body(
+                [*node.body, *remaining_body],
+                ctx.updated(symbols=dict(ctx.symbols)),
+            )
+            else_expr = _handle_fn_body(
+                [*node.orelse, *remaining_body],
+                ctx.updated(symbols=dict(ctx.symbols)),
+            )
+            if condition is None or if_expr is None or else_expr is None:
+                return None
+            # Keep elif chains and consecutive ifs as one flat Piecewise
+            if isinstance(else_expr, sympy.Piecewise):
+                return sympy.Piecewise((if_expr, condition), *else_expr.args)
+            return sympy.Piecewise((if_expr, condition), (else_expr, True))
 
-            # If there's an else clause
-            if node.orelse:
-                # Check if it's an elif (an If node in orelse)
-                if len(node.orelse) == 1 and isinstance(node.orelse[0], ast.If):
-                    # Push the elif back to the beginning of remaining_body to process next
-                    remaining_body.insert(0, node.orelse[0])
-                else:
-                    # It's a regular else
-                    else_expr = _handle_fn_body(node.orelse, ctx)  # FIXME: copy here
-                    pieces.append((else_expr, True))
-                    break  # We're done with this chain
-
-            elif not remaining_body and any(
-                isinstance(n, ast.Return) for n in body[body.index(node) + 1 :]
-            ):
-                else_expr = _handle_fn_body(
-                    body[body.index(node) + 1 :], ctx
-                )  # FIXME: copy here
-                pieces.append((else_expr, True))
-
-        elif isinstance(node, ast.Return):
+        if isinstance(node, ast.Return):
             if (value := node.value) is None:
                 msg = "Return value cannot be None"
                 raise ValueError(msg)
+            return _handle_expr(value, ctx)
 
-            expr = _handle_expr(value, ctx)
-            if not pieces:
-                return expr
-            pieces.append((expr, True))
-            break
-
-        elif isinstance(node, ast.Assign):
+        if isinstance(node, ast.Assign):
+            if len(node.targets) != 1:
+                msg = "Chained assignments are not supported"
+                raise NotImplementedError(msg)
             # Handle tuple assignments like c, d = a, b
             if isinstance(node.targets[0], ast.Tuple):
-                # Handle tuple unpacking
                 target_elements = node.targets[0].elts
-
-                if isinstance(node.value, ast.Tuple):
-                    # Direct unpacking like c, d = a, b
-                    value_elements = node.value.elts
-                    for target, value_expr in zip(
-                        target_elements, value_elements, strict=True
-                    ):
-                        if isinstance(target, ast.Name):
-                            expr = _handle_expr(value_expr, ctx)
-                            if expr is None:
-                                return None
-                            ctx.symbols[target.id] = expr
-                else:
-                    # Handle potential iterable unpacking
-                    value = _handle_expr(node.value, ctx)
+                if not isinstance(node.value, ast.Tuple) or not all(
+                    isinstance(target, ast.Name) for target in target_elements
+                ):
+                    msg = "Only direct unpacking into names is supported"
+                    raise NotImplementedError(msg)
+                # Evaluate every right-hand side before binding any name (a, b = b, a)
+                values = [_handle_expr(value, ctx) for value in node.value.elts]
+                if any(value is None for value in values):
+                    return None
+                for target, value in zip(target_elements, values, strict=True):
+                    ctx.symbols[cast(ast.Name, target).id] = cast(sympy.Expr, value)
             else:
                 # Regular single assignment
                 if not isinstance(target := node.targets[0], ast.Name):
@@ -424,12 +412,18 @@ def _handle_fn_body(body: list[ast.stmt], ctx: Context) -> sympy.Expr | None:
                     ctx.modules[name] = el
                 else:
                     _LOGGER.debug("Skipping import %s", node)
-        else:
-            _LOGGER.debug("Skipping node of type %s", type(node))
 
-    # If we have pieces to combine into a Piecewise
-    if pieces:
-        return sympy.Piecewise(*pieces)
+        elif isinstance(node, ast.Pass) or (
+            isinstance(node, ast.Expr)
+            and isinstance(node.value, ast.Constant)
+            and isinstance(node.value.value, str)
+        ):
+            pass  # docstring
+
+        else:
+            # Skipping a statement silently would change the meaning of the function
+            msg = f"Statement type {type(node).__name__} not implemented"
+            raise NotImplementedError(msg)
 
     # If no return was found but we have assignments, return the last assigned variable
     for node in reversed(body):
